@@ -1,4 +1,150 @@
-import BlochVerif.Eval.Model
+import BlochVerif.Sim.Qasm
+/-!
+# C05 — the emitted OpenQASM lists what was done, once, in order, and is well formed
+
+About the simulator model (any scalar instance): every operation the simulator performs appends exactly
+its own line to the log, a refused operation and an allocation append nothing, so after any history the
+log is the list of performed operations in execution order (`log_is_history`); every logged operand is in
+range of the final register and `cx` operands are distinct (`log_wellformed`).  The replay clause (an
+independent OpenQASM interpreter reaches the simulator's final state) needs "interleaved allocation equals
+allocation up front" and six-decimal angles; it is decided by the independent interpreter in
+`tools/qasmlib.py` on generated programs, not by a theorem (PARTIAL).
+-/
 namespace BlochVerif.Props.C05
-theorem placeholder : True := trivial
+open BlochVerif BlochVerif.Sim
+
+variable {K R : Type} [Inhabited K] [Add K] [Mul K]
+
+/-- the log line an operation contributes when it is performed in state `st` (nothing when refused) -/
+def lineOf (o : ROps K R) (st : State K R) : HOp R → List (QOp R)
+  | .alloc => []
+  | .gate op =>
+    match gateMat o op, gate1 o st op with
+    | some _, .ok _ => [op]
+    | _, _ => []
+  | .cx c t => match cx st c t with | .ok _ => [.cx c t] | .error _ => []
+  | .measure q r => match measure o st q r with | .ok _ => [.measure q] | .error _ => []
+  | .reset q r => match reset o st q r with | .ok _ => [.reset q] | .error _ => []
+
+/-- operands in range, `cx` on distinct qubits -/
+def opOK (n : Nat) : QOp R → Prop
+  | .h q | .x q | .y q | .z q | .rx q _ | .ry q _ | .rz q _ | .reset q | .measure q => q < n
+  | .cx c t => c < n ∧ t < n ∧ c ≠ t
+
+theorem opOK_mono {n m : Nat} (h : n ≤ m) (op : QOp R) (hk : opOK n op) : opOK m op := by
+  cases op <;> simp only [opOK] at hk ⊢ <;> omega
+
+theorem ensureActive_ok (st : State K R) (q : Nat) (h : ensureActive st q = .ok ()) : q < st.n := by
+  unfold ensureActive at h
+  split at h
+  · cases h
+  · omega
+
+/-- one step: the log grows by exactly `lineOf`, logging stays on, the register never shrinks, and what was
+logged is in range of the new register -/
+theorem step_log (o : ROps K R) (st : State K R) (hl : st.logOps = true) (hop : HOp R) :
+    (stepOp o st hop).ops = st.ops ++ lineOf o st hop ∧ (stepOp o st hop).logOps = true ∧
+    st.n ≤ (stepOp o st hop).n ∧ ∀ l ∈ lineOf o st hop, opOK (stepOp o st hop).n l := by
+  cases hop with
+  | alloc => simp [stepOp, lineOf, allocate, hl]
+  | gate op =>
+    simp only [stepOp, lineOf]
+    unfold gate1
+    cases hg : gateMat o op with
+    | none => simp [hl]
+    | some qm =>
+      obtain ⟨q, m⟩ := qm
+      simp only
+      cases he : ensureActive st q with
+      | error e => simp [bind, Except.bind, hl]
+      | ok u =>
+        have hq := ensureActive_ok st q he
+        simp only [bind, Except.bind, pure, Except.pure, State.log, hl, if_true]
+        refine ⟨by simp, trivial, Nat.le_refl _, ?_⟩
+        intro l hlm
+        simp only [List.mem_singleton] at hlm
+        subst hlm
+        cases l <;> simp only [gateMat, Option.some.injEq, Prod.mk.injEq] at hg <;> try (cases hg)
+        all_goals (simp only [opOK]; omega)
+  | cx c t =>
+    simp only [stepOp, lineOf]
+    unfold cx
+    cases hc : ensureActive st c with
+    | error e => simp [bind, Except.bind, hl]
+    | ok u =>
+      cases ht : ensureActive st t with
+      | error e => simp [bind, Except.bind, hl]
+      | ok u' =>
+        have h1 := ensureActive_ok st c hc
+        have h2 := ensureActive_ok st t ht
+        by_cases hct : c = t
+        · simp [bind, Except.bind, hct, throw, throwThe, MonadExceptOf.throw, hl]
+        · simp [bind, Except.bind, hct, pure, Except.pure, State.log, hl, opOK, h1, h2]
+  | measure q r =>
+    simp only [stepOp, lineOf]
+    unfold Sim.measure
+    cases hc : ensureActive st q with
+    | error e => simp [bind, Except.bind, hl]
+    | ok u =>
+      have h1 := ensureActive_ok st q hc
+      simp [bind, Except.bind, pure, Except.pure, measureCore, State.log, hl, opOK, h1]
+  | reset q r =>
+    simp only [stepOp, lineOf]
+    unfold Sim.reset
+    by_cases hq : q ≥ st.n
+    · simp [hq, bind, Except.bind, throw, throwThe, MonadExceptOf.throw, hl]
+    · simp [hq, bind, Except.bind, pure, Except.pure, resetCore, State.log, hl, opOK]
+      omega
+
+/-- the operations performed along a history, in execution order -/
+def performed (o : ROps K R) : State K R → List (HOp R) → List (QOp R)
+  | _, [] => []
+  | st, hop :: rest => lineOf o st hop ++ performed o (stepOp o st hop) rest
+
+/-- The log after any history is exactly the list of operations the simulator performed: each one once,
+in execution order, nothing else. -/
+theorem log_is_history (o : ROps K R) (h : List (HOp R)) (st : State K R) (hl : st.logOps = true) :
+    (runOps o st h).ops = st.ops ++ performed o st h := by
+  induction h generalizing st with
+  | nil => simp [runOps, performed]
+  | cons hop rest ih =>
+    obtain ⟨h1, h2, _, _⟩ := step_log o st hl hop
+    have := ih (stepOp o st hop) h2
+    simp only [runOps, List.foldl_cons] at this ⊢
+    rw [this, h1, performed, List.append_assoc]
+
+theorem runOps_n_mono (o : ROps K R) (h : List (HOp R)) (st : State K R) (hl : st.logOps = true) :
+    st.n ≤ (runOps o st h).n := by
+  induction h generalizing st with
+  | nil => simp [runOps]
+  | cons hop rest ih =>
+    obtain ⟨_, h2, h3, _⟩ := step_log o st hl hop
+    have := ih (stepOp o st hop) h2
+    simp only [runOps, List.foldl_cons] at this ⊢
+    omega
+
+/-- Every logged operand is in range of the final register and two-qubit gates act on distinct qubits. -/
+theorem log_wellformed (o : ROps K R) (h : List (HOp R)) (st : State K R) (hl : st.logOps = true)
+    (hst : ∀ l ∈ st.ops, opOK st.n l) : ∀ l ∈ (runOps o st h).ops, opOK (runOps o st h).n l := by
+  induction h generalizing st with
+  | nil => simpa [runOps] using hst
+  | cons hop rest ih =>
+    obtain ⟨h1, h2, h3, h4⟩ := step_log o st hl hop
+    have := ih (stepOp o st hop) h2 (by
+      intro l hlm
+      rw [h1] at hlm
+      rcases List.mem_append.mp hlm with hm | hm
+      · exact opOK_mono h3 l (hst l hm)
+      · exact h4 l hm)
+    simpa [runOps] using this
+
+/-- from the initial state: the whole program text is the header for the final register size followed by one
+line per performed operation -/
+theorem qasm_text_is_header_plus_history (o : ROps K R) (fmt : R → String) (h : List (HOp R)) :
+    getQasm fmt (runOps o (State.init o true) h) =
+      renderProgram (runOps o (State.init o true) h).n ((performed o (State.init o true) h).map (QOp.toText fmt)) := by
+  unfold getQasm
+  rw [log_is_history o h (State.init o true) rfl]
+  simp [State.init]
+
 end BlochVerif.Props.C05
